@@ -213,8 +213,9 @@ def build(job):
         eng.assume(And(distinct([p, ps, q]), distinct([u, us, w])))
         d1 = eng.mkdict([("prefix", p), ("uri_prefix", u), ("prefix_synonyms", [ps]), ("uri_prefix_synonyms", [us]), ("pattern", pat)])
         r2 = api.Record(prefix=q, uri_prefix=w)
+        kind = eng.choice("input_kind", ["list", "tuple", "iter"])      # the loaders take any Iterable of records / dicts
         for loader in (api.Converter.from_extended_prefix_map, api.load_extended_prefix_map):
-            c = loader([d1, r2])
+            c = loader({"list": list, "tuple": tuple, "iter": iter}[kind]([d1, r2]))
             a, b = rec_of(c, p), rec_of(c, q)
             eng.expect(len(c.records) == 2 and a is not None and b is not None, "from_extended_prefix_map: records missing")
             if a is not None:
